@@ -795,3 +795,94 @@ def rtr_operator_ends(c):
                         {"spec": "RtrClient (end of session ordered by the operator)", "op": j["op"], "runs": n})
     c.cov["evaluations"] += len(res)
     c.cov["parts"]["operator_ends"] = {"runs": len(res)}
+
+
+def session_limits(c):
+    """C15, session half: spec/SessionLimit (one session's per-family limit counters; one action per rx_update call).
+    design: TLC exhausts configurations A, B, C (different maxima per family, a family without limit, a zero limit);
+    spec -> impl: transitions of the generated graph replayed on a real PeerSession (accept_connection + rx_update) over a
+    real TableManager; after every step the counters, rx_update's verdict and a recount of the RIB must equal the model's."""
+    sdir = os.path.join(vf.ROOT, "spec", "SessionLimit")
+    thorough = c.tier == "thorough"
+    maxes = {"A": ("2", "1"), "B": ("1", "-"), "C": ("0", "2")}
+    runs = []
+    for k in ("A", "B", "C"):
+        r = vf.tlc(sdir, "SLDesign", os.path.join(sdir, f"{k}.cfg"), workers=8, timeout=900)
+        c.add_tlc("sesslimit-design-" + k, r)
+        if r.violated:
+            c.violation("sesslimit.design", {"invariant": r.violated, "config": k, "tlc": r.error_text[:3000]},
+                        {"spec": "SessionLimit", "config": k, "counterexample": r.error_text[:20000]})
+            continue
+        r = vf.tlc(sdir, "SessionLimitMC", os.path.join(sdir, f"gen{k}.cfg"), workers=4, timeout=900, want_edges=True)
+        edges = r.edges
+        if not edges:
+            raise vf.ToolError(f"SessionLimitMC gen{k}: no edges")
+        init = vf.canon({"held": {"v4": [], "v6": []}, "other": {"v4": [], "v6": []}, "over": False,
+                         "cnt": {f: (999 if m == "-" else 0) for f, m in zip(("v4", "v6"), maxes[k])}})
+
+        def klass(e):
+            o = e["op"]
+            f = o["f"]
+            return (o["k"], f, e["pre"]["cnt"][f], e["post"]["cnt"][f], e["post"]["over"],
+                    len(e["pre"]["other"][f]), e["pre"]["cnt"]["v6" if f == "v4" else "v4"],
+                    o.get("p") in [x[0] for x in e["pre"]["held"][f]], o.get("p") in e["pre"]["other"][f])
+        targets, nclass = vf.pick_targets(edges, klass, extra=6000 if thorough else 1200, seed=c.seed)
+        seqs, covered, total = vf.cover_sequences(edges, init_key=init, max_len=40, targets=targets, seed=c.seed)
+        runs.append((k, edges, seqs))
+        c.cov["parts"]["sesslimit-" + k] = {"model_transitions": len(edges), "classes": nclass, "targets": total,
+                                            "covered": covered, "sequences": len(seqs)}
+    if c.violations:
+        return
+    inp = os.path.join(vf.WORK, "C15.sl.in")
+    outp = os.path.join(vf.WORK, "C15.sl.out")
+
+    def op_line(o):
+        if o["k"] in ("ann", "wd"):
+            return f"{o['k']} {o['f']} {o['p']} {o['i']}"
+        if o["k"] == "annall":
+            return f"annall {o['f']} {o['i']}"
+        return f"{o['k']} {o['f']} {o['p']}"
+    index = {}
+    with open(inp, "w") as f:
+        for k, edges, seqs in runs:
+            for si, seq in enumerate(seqs):
+                sid = f"{k}/{si}"
+                index[sid] = (k, edges, seq)
+                f.write(f"seq {sid} {maxes[k][0]} {maxes[k][1]}\n")
+                for ei in seq:
+                    f.write(op_line(edges[ei]["op"]) + "\n")
+    if os.path.exists(outp):
+        os.remove(outp)
+    rc, out = vf.daemon_test("event::verif_harness::sesslimit_replay", env={"VERIF_IN": inp, "VERIF_OUT": outp}, timeout=1500)
+    if rc != 0 or not os.path.exists(outp):
+        raise vf.ToolError(f"sesslimit_replay failed rc={rc}:\n{out[-3000:]}")
+    got = {(j["seq"], j["step"]): j for j in vf.read_jsonl(outp)}
+    compared = 0
+    reported = 0
+    for sid, (k, edges, seq) in index.items():
+        if reported >= 3:
+            break
+        for i, ei in enumerate(seq, start=1):
+            e = edges[ei]
+            j = got.get((sid, i))
+            if j is None:
+                raise vf.ToolError(f"no harness record for {sid} step {i}")
+            compared += 1
+            post = e["post"]
+            exp = {"over": post["over"], "cnt": post["cnt"],
+                   "held": {f: sorted(map(list, post["held"][f])) for f in post["held"]},
+                   "other": {f: sorted(post["other"][f]) for f in post["other"]},
+                   "dest": {f: len({x[0] for x in post["held"][f]} | set(post["other"][f])) for f in post["held"]}}
+            act = {"over": j["over"], "cnt": j["cnt"], "held": {f: sorted(j["held"][f]) for f in j["held"]},
+                   "other": {f: sorted(j["other"][f]) for f in j["other"]}, "dest": j["dest"]}
+            bad = [x for x in exp if exp[x] != act[x]]
+            if bad:
+                steps = [op_line(edges[x]["op"]) for x in seq[:i]]
+                c.violation("sesslimit." + bad[0],
+                            {"config": k, "max": dict(zip(("v4", "v6"), maxes[k])), "step": i, "op": e["op"],
+                             "differs": bad, "expected": exp, "actual": act},
+                            {"spec": "SessionLimit", "config": k, "max": maxes[k], "steps": steps})
+                reported += 1
+                break
+    c.cov["evaluations"] += compared
+    c.cov["traces_validated_against_impl"] = c.cov.get("traces_validated_against_impl", 0) + len(index)
